@@ -137,7 +137,13 @@ class LockFile:
 
         if set_permissions:
             permission = int(file_permissions, base=8)
-            os.chmod(path, permission)
+            try:
+                os.chmod(path, permission)
+            except FileNotFoundError:
+                # removed again by the process that just released the lock
+                # (FileLock with remove_on_unlock), let the caller retry
+                fp.close()
+                raise LockError("Lock file {0} was removed while locking it".format(path))
 
         try:
             _lock_file(fp)
